@@ -207,24 +207,43 @@ def sessOp (d : SessDrv) (toks : List String) : SessDrv × String :=
       match Sess.step d.sess (.setClockSync { clockValue := a, clockFrequency := b, nsSinceEpoch := c, tzOffset := e, tzName := f }) with
       | some s' => ({ d with sess := s' }, "cs") | none => (d, "disabled")
     | _, _, _, _, _ => (d, "bad-op")
-  | ["consume"] =>
-    -- sequential: every channel is seen completely; the split comes from the queue model
-    let step (acc : SessDrv × List Sess.Poll) (c : Sess.Chan) : SessDrv × List Sess.Poll :=
-      let (d, polls) := acc
+  | "consume" :: rest =>
+    -- without an argument: sequential (every channel is seen completely).  With `polls=c28,o0,…` (what the real
+    -- consume observed per channel under the release/acquire shim: closed?/bytes seen) those observations are the oracle.
+    let given : List (Bool × Nat) :=
+      match rest with
+      | [tok] =>
+        if tok.startsWith "polls=" then
+          ((tok.drop 6).toString.splitOn ",").filterMap fun t =>
+            if t.isEmpty then none else (t.drop 1).toString.toNat?.map fun n => (t.front == 'c', n)
+        else []
+      | _ => []
+    let useGiven := !rest.isEmpty
+    let step (acc : SessDrv × List Sess.Poll × Nat) (c : Sess.Chan) : SessDrv × List Sess.Poll × Nat :=
+      let (d, polls, idx) := acc
+      let (sawClosed, seen) : Bool × Nat :=
+        if useGiven then
+          match given[idx]? with
+          | some (cl, bytes) => (cl, countPrefix c.entries bytes)
+          | none => (false, 0)
+        else (true, c.entries.length)
       match d.queue c.cid with
-      | none => (d, polls ++ [⟨true, c.entries.length, 0⟩])
+      | none => (d, polls ++ [⟨sawClosed, seen, 0⟩], idx + 1)
       | some q =>
-        match Q.step {} q (.cBegin (q.wHist.length - 1)) with
-        | none => (d, polls ++ [⟨true, c.entries.length, 0⟩])
+        let consumed := q.wHist.length - 1 - c.entries.length
+        let n := if c.sealed then c.entries.length else min seen c.entries.length
+        match Q.step {} q (.cBegin (consumed + n)) with
+        | none => (d, polls ++ [⟨sawClosed, seen, 0⟩], idx + 1)
         | some q1 =>
           let p1 := (q1.pieces.headD []).length
           let split := if q1.pieces.length = 2 then countPrefix c.entries p1 else 0
           let q2 := if q1.batch.isEmpty then q1 else (Q.step {} q1 .cEnd).getD q1
-          (d.setQueue c.cid q2, polls ++ [⟨true, c.entries.length, split⟩])
-    let (d, polls) := d.sess.channels.foldl step (d, [])
+          (d.setQueue c.cid q2, polls ++ [⟨sawClosed, seen, split⟩], idx + 1)
+    let (d, polls, _) := d.sess.channels.foldl step (d, [], 0)
     let ws := Sess.consumeWrites d.sess polls
     let (s', r) := Sess.consume d.sess polls
-    ({ d with sess := s' }, s!"consume writes={showWrites ws} {showResult r}")
+    let lostNote := if s'.lost.length > d.sess.lost.length then s!" LOST={s'.lost.length - d.sess.lost.length}" else ""
+    ({ d with sess := s' }, s!"consume writes={showWrites ws} {showResult r}{lostNote}")
   | ["rotate"] =>
     let s0 := { d.sess with outputs := d.sess.outputs ++ [[]] }
     let (s', r) := Sess.reconsumeMetadata s0
